@@ -116,7 +116,10 @@ Filters::Filters():
    mpLevelFilter( nullptr)
 {
 
-   setDuplicatePolicy( detail::DuplicatePolicy::ignore);
+   // the policy is a process-wide setting: only install the default when no
+   // policy has been set yet, do not overwrite what was configured
+   if (mpDuplicatePolicy.get() == nullptr)
+      setDuplicatePolicy( detail::DuplicatePolicy::ignore);
 
 } // Filters::Filters
 
